@@ -186,11 +186,16 @@ def law_replace(d, rng):
     fails = []
     maps = []
     if ids:
+        # constants exist only for the widths that have a modint class: prefer such an identifier as the first key
+        ids = sorted(ids, key=lambda x: x[2] not in gen.UINT)
         k = ids[0]; w = k[2]
+        if w not in gen.UINT:
+            ids = []
+    if ids:
         maps.append({k: ('int', w, gen.consts(w)[-1])})
         maps.append({k: ('id', 'r%d' % w, w)})
         maps.append({k: ('op', '+', (('id', 'r%d' % w, w), ('int', w, 1))) if w > 1 else ('id', 'r1', 1)})
-        if len(ids) > 1:
+        if len(ids) > 1 and ids[1][2] in gen.UINT:
             k2 = ids[1]
             maps.append({k: ('id', 'r%d' % w, w), k2: ('int', k2[2], 1)})
     if any(x[0] == 'smem' and x[1] == 'fs' for x in subs):
@@ -380,14 +385,23 @@ def main(argv):
                 run.ob(oid, ENGINE_ERR, 'BND', 'cpython-enum', detail='native replay does not confirm (rc=%s): %s | %s' % (rc, detail, outp[-300:]))
     run.bulk('law instances', total - nfail, 'BND', 'cpython-enum+z3', 0.0, BOUNDED_OK)
     run.bulk('value laws with solver unknown', sum(r['unknown'] for r in results), 'BND', 'z3', 0.0, DOWNGRADED)
+    # inductive per-class steps of __eq__/__hash__/visit/copy on the real method bodies (Engine A)
+    try:
+        from checks import C15smt
+        nind = C15smt.ob_smt(run)
+    except Exception as ex:
+        import traceback
+        nind = 0
+        run.ob('C15:ind:driver', ENGINE_ERR, 'SMT-A', 'pyvc', detail='%s: %s | %s' % (type(ex).__name__, ex, traceback.format_exc()[-400:]))
     run.evaluations = total
     run.distinct = len(trees)
     run.rule = ('trees: operand pools (ids, constants, plain/segmented memory, conds, slices, composes), all binary/ternary operator applications over them, depth-1 trees, '
                 'rule templates, seeded random trees depth<=4, ExprAff nodes; per tree: reflexivity, hash, copy equality+freshness (identity walk), visit(identity), '
                 'canonize value (z3, all valuations), replace_expr as substitution for up to 6 maps (z3, all valuations), frames; per pool: symmetry, !=, eq=>hash, '
                 'eq=>same value (z3), transitivity')
-    run.explanation = ('run-time twins of the structural contracts over enumerated trees; value clauses proved per tree for all valuations by z3; '
-                       'the per-class inductive proofs of DESIGN 5/C15 are not claimed here')
+    run.explanation = ('__eq__/__hash__/visit/copy: one inductive step per node class proved on the real method body by Engine A (opaque children answered by the induction '
+                       'hypothesis; unbounded depth; child classes by rotation; arity of ExprOp/ExprCompose up to 3) - %d obligations; replace_expr/canonize value clauses and the '
+                       'whole-tree laws: run-time twins over enumerated trees, value clauses proved per tree for all valuations by z3' % nind)
     run.samples = [dstr(d) for d in trees[:4] + trees[-3:]]
     run.trust('z3; liftvc/den.py'); run.assume('replace_expr maps: keys are identifiers/memory cells of the tree, not nested in each other or in replacements')
     return run.finish()
